@@ -173,6 +173,17 @@ let run_op (line : string) =
    | "spawn" -> (match op_spawn beh !w with
                  | ROk (k, w') -> w := w'; Printf.printf "R id %s\n" (skey k)
                  | RFail (f, w') -> w := w'; Printf.printf "R %s\n" (sfail f))
+   | "spawnmany" -> let n = next_int () in
+       let rec go k = if k = 0 then print_string "R ok\n" else
+         (match op_spawn beh !w with
+          | ROk (_, w') -> w := w'; go (k - 1)
+          | RFail (f, w') -> w := w'; Printf.printf "R %s\n" (sfail f)) in go n
+   | "despawnall" ->
+       let rec go l = match l with
+         | [] -> print_string "R ok\n"
+         | e :: t -> (match op_despawn beh e !w with
+                      | ROk (_, w') -> w := w'; go t
+                      | RFail (f, w') -> w := w'; Printf.printf "R %s\n" (sfail f)) in go (!w).w_h.k_ids
    | "insert" -> let i = next_int () in let k = next_int () in result_unit (op_insert beh (ent i) (ni k) !w)
    | "remove" -> let i = next_int () in let k = next_int () in result_unit (op_remove beh (ent i) (ni k) !w)
    | "despawn" -> let i = next_int () in result_unit (op_despawn beh (ent i) !w)
